@@ -60,6 +60,7 @@ Definition al := approx_list.
                 for op in ("ov_lin", "ov_pc", "to2d", "to2d_closed", "average", "nfull", "avg_roundtrip"):
                     cases.append(self.mk(rng, op, a, n))
                 for d in DIRS:
+                    cases.append(self.mk(rng, "iext", a, n, direction=d))       # the same through the interval view
                     cases.append(self.mk(rng, "ext_const", a, n, direction=d))
                     if L >= n + 1:
                         cases.append(self.mk(rng, "ext_lin", a, n, direction=d))
@@ -353,7 +354,14 @@ Definition al := approx_list.
                         if not close(blk, exp):
                             fail("oversample", "gap %d filled with %s, expected %s" % (k, blk, exp))
                             break
-        elif op in ("ext_lin", "ext_const"):
+        elif op in ("ext_lin", "ext_const", "iext"):
+            # (iext: the same contract through the interval view — IntervalArray.extend_linspace / extend_constant with the object's own
+            #  n and the helper's documented default end points; n stays)
+            if op == "iext":
+                if o.get("n") != n:
+                    fail("extend", "interval size became %s" % o.get("n"))
+                op = "ext_lin" if c["kind"] == "lin" else "ext_const"
+                c = dict(c, lstart=None, rstop=None)
             out = o["out"]
             d = c["direction"]
             nl = n if d in ("both", "left") else 0
